@@ -190,28 +190,91 @@ def check_history(prog, text, rules, order, refs):
     return out
 
 
+def _scope_locals(lit, own):
+    if lit[0] == 'agg':
+        return (model.body_vars(lit[4]) | model.expr_vars(lit[3])) - own
+    if lit[0] == 'neg':
+        return model.body_vars(lit[1]) - own
+    return set()
+
+
+def shared_sibling_locals(body, own):
+    """Names that are local to >= 2 sibling combines / negations of a body."""
+    seen, shared = set(), set()
+    for l in body:
+        loc = _scope_locals(l, own)
+        shared |= loc & seen
+        seen |= loc
+    return shared
+
+
+def is_hot(d):
+    return (d[0] == 'fun' and any(e[0] == 'aggx' for e in common.walk_exprs_of_expr(d[2]))) \
+        or (d[0] == 'rel' and any(l[0] in ('agg', 'neg') for l in d[2]))
+
+
 def inj_features(prog):
-    """Labels: how injectibles with combines are used (called twice / nested)."""
+    """Labels: the hazard shapes of injection that the program contains."""
     labels = set()
-    hot = {n for n, d in prog.get('inj', {}).items()
-           if (d[0] == 'fun' and any(e[0] == 'aggx' for e in common.walk_exprs_of_expr(d[2])))
-           or (d[0] == 'rel' and any(l[0] in ('agg', 'neg') for l in d[2]))}
-    if not hot:
-        return labels
-    labels.add('inj_with_combine')
+    inj = prog.get('inj', {})
+    hot = {n for n, d in inj.items() if is_hot(d)}
+    # callees that may be injected and have sibling scopes sharing a local name
+    shared = {}
+    for n, d in inj.items():
+        if d[0] == 'rel':
+            sh = shared_sibling_locals(d[2], model.own_vars(d[2]) | set(d[1]))
+            if sh:
+                shared[n] = sh
+    count = {}
+    for r in prog['rules']:
+        count[r['pred']] = count.get(r['pred'], 0) + 1
+    for r in prog['rules']:
+        if r['body'] and count[r['pred']] == 1 and not r.get('distinct') and not any(
+                h[0] == 'AGG' for _, h in r['head']) and not (
+                r.get('value') is not None and r['value'][0] == 'AGG'):
+            sh = shared_sibling_locals(r['body'], model.rule_own_vars(r))
+            if sh:
+                shared[r['pred']] = sh
+    if shared:
+        labels.add('shape:callee_sibling_scopes_share_local')
+    if hot:
+        labels.add('inj_with_combine')
     for r in prog['rules']:
         if not r['body']:
             continue
-        n = 0
+        calls = []          # (callee, input vars, output vars)
         for l in common.walk_lits(r['body']):
-            if l[0] == 'call' and l[1] in hot:
-                n += 1
+            if l[0] == 'call':
+                if l[1] in shared and shared[l[1]] & model.rule_all_vars(r):
+                    labels.add('shape:caller_variable_named_like_shared_local')
+                if l[1] in hot:
+                    k_in = sum(1 for x in inj[l[1]][1]) if inj[l[1]][0] != 'rel' else None
+                    d = inj[l[1]]
+                    outs_params = {p for p in d[1] if any(
+                        x[0] == 'agg' and x[1] == p for x in d[2])}
+                    ins, outs = set(), set()
+                    for (f, a) in l[2]:
+                        if d[1][f] in outs_params and a[0] == 'var':
+                            outs.add(a[1])
+                        else:
+                            ins |= model.expr_vars(a)
+                    calls.append((l[1], ins, outs))
+            elif l[0] == 'assign' and l[2][0] == 'fcall' and l[2][1] in hot:
+                ins = set()
+                for f, a in l[2][2]:
+                    ins |= model.expr_vars(a)
+                calls.append((l[2][1], ins, {l[1]}))
+        n = len(calls)
         for e in common.rule_exprs(r):
             if e[0] == 'fcall' and e[1] in hot:
-                n += 1
                 if any(x[0] == 'fcall' and x[1] in hot
                        for f, a in e[2] for x in common.walk_exprs_of_expr(a)):
-                    labels.add('inj_with_combine_nested_call')
+                    labels.add('shape:inj_with_combine_nested_call')
+                n += 1
+        for i, (c1, ins1, outs1) in enumerate(calls):
+            for j, (c2, ins2, outs2) in enumerate(calls):
+                if i != j and outs1 & ins2:
+                    labels.add('shape:inj_with_combine_output_feeds_another')
         if n:
             labels.add('inj_with_combine_called')
         if n >= 2:
